@@ -106,7 +106,63 @@ class Engine:
         nm = f"{name}!{self._fresh}"
         return z3.Real(nm) if sort == "real" else z3.Int(nm) if sort == "int" else z3.Bool(nm)
 
+    relax_nonlinear = False
+    # with relax_nonlinear: a LINEAR branch condition that is satisfiable together with the linear part of the path condition is taken as
+    # feasible without asking the NRA procedure (counted in feas_trusted).  Like `unknown`, this can only add paths: a path that is
+    # infeasible in truth has unsatisfiable premises, so its obligations hold vacuously and a failure on it cannot be replayed.
+    trust_relaxation = False
+    sqrt_known_constants = False
+    _lin_memo = None
+
+    def _is_linear(self, t):
+        """no product / quotient / power of two non-constant terms anywhere in t (memoised per term id)"""
+        memo = self._lin_memo
+        if memo is None:
+            memo = self._lin_memo = {}
+        stack = [t]
+        order = []
+        while stack:
+            x = stack.pop()
+            if x.get_id() in memo:
+                continue
+            order.append(x)
+            stack.extend(x.children())
+        for x in reversed(order):
+            k = x.get_id()
+            if k in memo:
+                continue
+            ok = all(memo.get(c.get_id(), True) for c in x.children())
+            if ok and z3.is_app(x):
+                kind = x.decl().kind()
+                if kind == z3.Z3_OP_MUL:
+                    ok = sum(1 for c in x.children() if not (z3.is_rational_value(c) or z3.is_int_value(c))) <= 1
+                elif kind in (z3.Z3_OP_DIV, z3.Z3_OP_IDIV, z3.Z3_OP_MOD, z3.Z3_OP_REM):
+                    ok = z3.is_rational_value(x.arg(1)) or z3.is_int_value(x.arg(1))
+                elif kind == z3.Z3_OP_POWER:
+                    ok = False
+            memo[k] = ok
+        return memo[t.get_id()]
+
     def _check(self, *extra):
+        if self.relax_nonlinear:
+            # sound pre-filter: the linear part of the path condition alone already excludes the branch (unsat stays unsat when the
+            # nonlinear premises are added); decided by simplex in milliseconds where the full query would need the NRA procedure
+            lin = [p for p in list(self.pc) + list(self.axioms) + list(extra) if self._is_linear(p)]
+            if len(lin) < len(self.pc) + len(self.axioms) + len(extra):
+                s0 = z3.Solver()
+                s0.set("timeout", self.decide_timeout_ms)
+                s0.add(*lin)
+                t = time.time()
+                r0 = s0.check()
+                self.stats["feas_time"] += time.time() - t
+                if r0 == z3.unsat:
+                    self.stats["feas_checks"] += 1
+                    self.stats["feas_relaxed"] = self.stats.get("feas_relaxed", 0) + 1
+                    return r0
+                if r0 == z3.sat and self.trust_relaxation and all(self._is_linear(e) for e in extra):
+                    self.stats["feas_checks"] += 1
+                    self.stats["feas_trusted"] = self.stats.get("feas_trusted", 0) + 1
+                    return r0
         s = z3.Solver()
         s.set("timeout", self.decide_timeout_ms)
         s.add(*self.pc)
@@ -557,6 +613,20 @@ class SR:
             n, d = math.isqrt(c.numerator), math.isqrt(c.denominator)
             if n * n == c.numerator and d * d == c.denominator:
                 return SR(z3.RealVal(str(fractions.Fraction(n, d))))
+        if e.sqrt_known_constants:
+            # unit rows: when the nonlinear EQUALITIES among the global assumptions alone fix the argument to 1 (sum of squares of a row
+            # assumed to be a unit vector, whatever the signs of its entries) the root is the constant 1 -- no fresh variable, no axioms
+            eqs = [p_ for p_ in e.base_assumptions if z3.is_eq(p_) and not e._is_linear(p_)]
+            if eqs:
+                s_ = z3.Solver()
+                s_.set("timeout", 500)
+                s_.add(*eqs)
+                s_.add(self.z != 1)
+                if s_.check() == z3.unsat:
+                    e.stats["sqrt_constants"] = e.stats.get("sqrt_constants", 0) + 1
+                    one = z3.RealVal(1)
+                    e._sqrt_args[key] = (self.z, one, simp)
+                    return SR(one)
         r = e.fresh("sqrt")
         e.declare_sign(r, "?")
         e.axiom(z3.Implies(self.z >= 0, z3.And(r >= 0, r * r == self.z)))
